@@ -24,6 +24,11 @@ inductive Op where
   | commonType | isConvertible | isConstructible
   | ptSub | ptEq | ptLt | ptImplicitCtor | ptAs | ptPlusQuantity | ptMinusQuantity
   | ptIsConvertible
+  -- second batch: the remaining rounding / coercion entry points and the rest of the point interface
+  | floorIn | ceilIn | roundAsRep | coerceAsRep | coerceInRep
+  | ptNe | ptLe | ptGt | ptGe | ptExplicitCtor | ptAssign | ptIn | ptCoerceAs | ptCoerceIn
+  | ptPlusAssign | ptMinusAssign | quantityPlusPt
+  | ptIsConstructible | ptCommonType
 deriving DecidableEq, Repr
 
 def Op.all : List Op :=
@@ -31,11 +36,13 @@ def Op.all : List Op :=
    .explicitCtor, .assign, .as_, .in_, .asRep, .inRep, .coerceAs, .coerceIn, .dataIn, .min2, .max2,
    .clamp3, .hypot, .fmod, .remainder, .arctan2, .inverseAs, .inverseIn, .roundAs, .roundIn, .floorAs,
    .ceilAs, .commonType, .isConvertible, .isConstructible, .ptSub, .ptEq, .ptLt, .ptImplicitCtor,
-   .ptAs, .ptPlusQuantity, .ptMinusQuantity, .ptIsConvertible]
+   .ptAs, .ptPlusQuantity, .ptMinusQuantity, .ptIsConvertible,
+   .floorIn, .ceilIn, .roundAsRep, .coerceAsRep, .coerceInRep, .ptNe, .ptLe, .ptGt, .ptGe, .ptExplicitCtor, .ptAssign,
+   .ptIn, .ptCoerceAs, .ptCoerceIn, .ptPlusAssign, .ptMinusAssign, .quantityPlusPt, .ptIsConstructible, .ptCommonType]
 
 /-- Trait-style questions: a failing gate makes them answer "no" instead of a hard error. -/
 def Op.isTrait : Op → Bool
-  | .commonType | .isConvertible | .isConstructible | .ptIsConvertible => true
+  | .commonType | .isConvertible | .isConstructible | .ptIsConvertible | .ptIsConstructible | .ptCommonType => true
   | _ => false
 
 /-- A gate: a condition on the operands and what happens when it fails. -/
@@ -68,6 +75,14 @@ def gates : Op → List Gate
   | .ptAs => [.sameDim .hard, .policy .hard]
   | .ptPlusQuantity | .ptMinusQuantity => [.sameDim .hard, .policy .hard]
   | .ptIsConvertible => [.sameDim .softNo, .policy .softNo]
+  | .floorIn | .ceilIn | .roundAsRep => [.sameDim .hard]
+  | .coerceAsRep | .coerceInRep => [.sameDim .hard]
+  | .ptNe | .ptLe | .ptGt | .ptGe => [.sameDim .hard, .policy .hard]
+  | .ptExplicitCtor | .ptAssign | .ptIn => [.sameDim .hard, .policy .hard]
+  | .ptCoerceAs | .ptCoerceIn => [.sameDim .hard]
+  | .ptPlusAssign | .ptMinusAssign | .quantityPlusPt => [.sameDim .hard, .policy .hard]
+  | .ptIsConstructible => [.sameDim .softNo, .policy .softNo]
+  | .ptCommonType => [.sameDim .softNo]
 
 /-- Outcome = the failure mode of the first failing gate. -/
 def firstFail (sameDim policyOk opOk : Bool) : List Gate → Outcome
